@@ -135,7 +135,7 @@ class Gen:
     def episode(self, orc, nops):
         r = self.rng
         R = r.choice([2, 2, 3])
-        n = r.choice([3, 4, 5]) if R == 2 else r.choice([4, 5])
+        n = r.choice([2, 3, 3, 4, 5]) if R == 2 else r.choice([3, 3, 4, 5])      # N >= R; N = R keeps a promoted backup owner listed as its own backup
         parts = r.choice([7, 11])
         yield "watchdog 300s"
         yield "clock 0"
